@@ -733,6 +733,19 @@ def judge_c20(rec):
                 out.append(V("C20", "violated", "bystander-modified", f"block {b['members']} amplitudes changed (max {ref.maxdiff(a0.astype(complex), a1.astype(complex)) if a0.shape == a1.shape else 'shape'})", cell=cell, **sig))
         elif s0 != s1:
             out.append(V("C20", "violated", "bystander-modified", f"block {b['members']} label {s0}->{s1}", cell=cell, **sig))
+    # a block that was merged into another one ceases to exist: its old container no longer holds data
+    for b in b0:
+        if not (A & set(b["members"])) or rec.exc is not None:
+            continue
+        if any(m in where1 and where1[m]["key"] != b["key"] for m in b["members"]):
+            if b["kind"] == "env":
+                en = b["key"][1]
+                if rec.post.envs[en]["state"][0] != "none":
+                    out.append(V("C20", "violated", "merged-block-not-dissolved", f"envelope {en} still holds an array although {b['members']} moved to {[where1[m]['members'] for m in b['members'] if m in where1][:1]}", cell=cell, **sig))
+            elif b["kind"] == "own":
+                m = b["members"][0]
+                if rec.post.subs[m]["state"][0] != "none" and where1[m]["kind"] != "own":
+                    out.append(V("C20", "violated", "merged-block-not-dissolved", f"{m} still holds its own state although it is now stored in {where1[m]['members']}", cell=cell, **sig))
     # a post block must not mix hit members with bystanders
     for b in b1:
         ms = set(b["members"])
